@@ -256,7 +256,7 @@ class GenesisCheck:
 
     def save_replay(self, pid, tier, seed, line, recs, clause, module, kind):
         ev = line["ev"]
-        d = os.path.join(ROOT, "replays", f"{pid}-{tier}-seed{seed}")
+        d = os.path.join(ROOT, "replays", f"{pid}-{tier}-seed{seed}{vlib.REPLAY_TAG}")
         shutil.rmtree(d, ignore_errors=True)
         os.makedirs(d)
         src = [r for r in recs if os.path.basename(r) == ev.get("rec")]
